@@ -1,0 +1,35 @@
+//go:build verif
+
+package base
+
+import (
+	"fmt"
+
+	"seata.apache.org/seata-go/pkg/datasource/sql/undo"
+)
+
+// VerifDecodeUndoLog is the decoding Undo applies to the context and rollback_info columns of
+// an undo_log row, composed from the same helpers in the same order.
+func VerifDecodeUndoLog(m *BaseUndoLogManager, context []byte, rollbackInfo []byte) (*undo.BranchUndoLog, error) {
+	var logCtx map[string]string
+	if context != nil && string(context) != "" {
+		logCtx = m.decodeUndoLogCtx(context)
+	}
+	if logCtx == nil {
+		return nil, fmt.Errorf("undo log context not exist in record")
+	}
+	info, err := m.getRollbackInfo(rollbackInfo, logCtx)
+	if err != nil {
+		return nil, err
+	}
+	return m.deserializeBranchUndoLog(info, logCtx)
+}
+
+// VerifDecodeUndoLogCtx / VerifEncodeUndoLogCtx expose the context codec of the manager.
+func VerifDecodeUndoLogCtx(m *BaseUndoLogManager, context []byte) map[string]string {
+	return m.decodeUndoLogCtx(context)
+}
+
+func VerifEncodeUndoLogCtx(m *BaseUndoLogManager, ctx map[string]string) []byte {
+	return m.encodeUndoLogCtx(ctx)
+}
